@@ -98,6 +98,9 @@ impl Monitor for Mon {
                             }
                         }
                     }
+                    if w.env.borrow().cfg.small_buffer && d.bytes.len() == SMALL_N {
+                        stats.bump("probe.frame-fills-small-radio-buffer");
+                    }
                     if let Some(rf) = d.rf {
                         if let Some(m) = rr::max_mac_for(region, rf.sf, rf.bw_khz) {
                             if d.bytes.len() == m as usize + 5 {
@@ -347,6 +350,12 @@ impl Property for C05 {
         if r.chance(3, 4) {
             cfg.fcnt_up0 = *r.pick(&[0u32, 5, 0xFFFF, 70000]);
         }
+        if cfg.frontend != Frontend::Nb && r.chance(1, 12) {
+            // a device whose radio buffer is smaller than the largest frame: frames that exactly fill it
+            cfg.small_buffer = true;
+            cfg.board = 0;
+        }
+        let small = cfg.small_buffer;
         let n = r.range(3, 12) as usize;
         let mut ops = Vec::new();
         // vary the data rates the windows are opened at: uplink data rate (RX1 follows it) and,
@@ -367,7 +376,19 @@ impl Property for C05 {
                 let frames = (0..k).map(|_| gen_frame(&mut r, cfg.region)).collect();
                 ops.push(Op::Listen { frames, fault: None });
             } else {
-                let txn = gen_txn(&mut r, &cfg);
+                let mut txn = gen_txn(&mut r, &cfg);
+                if small && r.chance(1, 2) {
+                    // PHY payload = 13 + len bytes: N - 1, N, N + 1
+                    let len = (SMALL_N as i64 - 13 + r.range(-1, 1)) as u8;
+                    let mut d = DataSpec::plain(1);
+                    d.body = Body::Data { port: 9, len };
+                    let f = FrameSpec::Data(d);
+                    if r.chance(1, 2) {
+                        txn.rx1 = vec![f];
+                    } else {
+                        txn.rx2 = vec![f];
+                    }
+                }
                 ops.push(Op::Send { port: r.range(1, 223) as u8, len: send_len(&mut r), confirmed: r.chance(1, 3), txn });
             }
         }
@@ -408,6 +429,7 @@ impl Property for C05 {
             "probe.payload-compared",
             "probe.classA-mac-answer-seen",
             "probe.rxc-mac-not-executed",
+            "probe.frame-fills-small-radio-buffer",
         ]
     }
 }
